@@ -118,7 +118,7 @@ def run(ctx):
     m = Stream("multi-record")
     cases = []
     for _ in range(6000 if ctx.thorough else 800):
-        recs = [codecio.canonical_record(r, "latin-1") for _ in range(r.choice([1, 2, 3, 6]))]
+        recs = codecio.no_framing([codecio.canonical_record(r, "latin-1") for _ in range(r.choice([1, 2, 3, 6]))])
         size = r.choice([8, 9, 10, 14, 15, 16, 20, 33, 64, 100, 247])
         cases.append((recs, size, r.randrange(0, 17)))
     run_cases(m, cases, ctx)
@@ -127,7 +127,7 @@ def run(ctx):
     it = Stream("iter_encode")
     cases = []
     for _ in range(4000 if ctx.thorough else 600):
-        recs = [codecio.canonical_record(r, "latin-1") for _ in range(r.choice([1, 2, 3, 5, 9]))]
+        recs = codecio.no_framing([codecio.canonical_record(r, "latin-1") for _ in range(r.choice([1, 2, 3, 5, 9]))])
         size = r.choice([8, 9, 12, 14, 15, 20, 40, 247])
         cases.append((recs, size, r.randrange(0, 17)))
     run_cases(it, cases, ctx, kind="ienc")
